@@ -76,6 +76,15 @@ func parseInt64(bytes []byte) (r int64, e error) {
 	return r, e
 }
 
+// signExtend interprets the n content octets accumulated in r as a two's complement number
+// (INTEGER and ENUMERATED contents are signed, unlike the length octets parseInt64 is also used for).
+func signExtend(r int64, n int) int64 {
+	if n > 0 && n < 8 && r&(int64(1)<<(uint(n)*8-1)) != 0 {
+		r -= int64(1) << (uint(n) * 8)
+	}
+	return r
+}
+
 func parseBool(b byte) (bool, error) {
 	return b != 0, nil
 }
@@ -123,6 +132,7 @@ func ParseField(v reflect.Value, bytes []byte, params fieldParameters) error {
 			return parse_err
 		}
 
+		val = signExtend(val, len(bytes[talOff:]))
 		v.Set(reflect.ValueOf(Enumerated(val)))
 		return nil
 	case NullType:
@@ -142,6 +152,7 @@ func ParseField(v reflect.Value, bytes []byte, params fieldParameters) error {
 		if parsedInt, parse_err := parseInt64(bytes[talOff:]); err != nil {
 			return parse_err
 		} else {
+			parsedInt = signExtend(parsedInt, len(bytes[talOff:]))
 			val.SetInt(parsedInt)
 			return nil
 		}
